@@ -3,6 +3,7 @@
 // entry n = value for the assignment whose variable i is bit i of n), the default value of every live handle, the
 // outcome of == for every pair of live handles and the sizes of the two unique tables (hook) are logged.
 #include "common.hh"
+#include <map>
 
 #include <vata/sym_var_asgn.hh>
 #include "mtbdd/ondriks_mtbdd.hh"
@@ -86,6 +87,12 @@ VDRIVE_OP(mtbdd)
 	json res;
 	res["base"] = json::array({MTBDD::VerifLeafStoreSize(), MTBDD::VerifInternalStoreSize()});
 	size_t stepNo = 0;
+	// "reuse": one functor object per operation name lives for the whole history and is called again and again (results
+	// and operands are destroyed / re-assigned in between); otherwise every step uses a fresh functor object
+	bool reuse = c.value("reuse", false);
+	std::map<std::string, F1> pf1;
+	std::map<std::string, F2> pf2;
+	std::map<std::string, F3> pf3;
 	for (const json& st : c.at("steps"))
 	{
 		std::string op = st.at(0).get<std::string>();
@@ -105,19 +112,22 @@ VDRIVE_OP(mtbdd)
 		else if (op == "destroy") { h[i].reset(); }
 		else if (op == "apply1")
 		{
-			F1 f; f.o = st.at(2).get<std::string>(); int j = st.at(3).get<int>();
+			F1 fresh; std::string o = st.at(2).get<std::string>(); int j = st.at(3).get<int>();
+			F1& f = reuse ? pf1[o] : fresh; f.o = o;
 			ev["f"] = f.o; ev["j"] = j;
 			h[i].reset(new MTBDD(f(*h[j])));
 		}
 		else if (op == "apply2")
 		{
-			F2 f; f.o = st.at(2).get<std::string>(); int j = st.at(3).get<int>(); int k = st.at(4).get<int>();
+			F2 fresh; std::string o = st.at(2).get<std::string>(); int j = st.at(3).get<int>(); int k = st.at(4).get<int>();
+			F2& f = reuse ? pf2[o] : fresh; f.o = o;
 			ev["f"] = f.o; ev["j"] = j; ev["k"] = k;
 			h[i].reset(new MTBDD(f(*h[j], *h[k])));
 		}
 		else if (op == "apply3")
 		{
-			F3 f; f.o = st.at(2).get<std::string>(); int j = st.at(3).get<int>(); int k = st.at(4).get<int>(); int m = st.at(5).get<int>();
+			F3 fresh; std::string o = st.at(2).get<std::string>(); int j = st.at(3).get<int>(); int k = st.at(4).get<int>(); int m = st.at(5).get<int>();
+			F3& f = reuse ? pf3[o] : fresh; f.o = o;
 			ev["f"] = f.o; ev["j"] = j; ev["k"] = k; ev["m"] = m;
 			h[i].reset(new MTBDD(f(*h[j], *h[k], *h[m])));
 		}
@@ -126,7 +136,8 @@ VDRIVE_OP(mtbdd)
 			int j = st.at(2).get<int>();
 			std::set<size_t> vars;
 			for (const json& v : st.at(3)) { vars.insert(v.get<size_t>()); }
-			F2 f; f.o = st.at(4).get<std::string>();
+			F2 fresh; std::string o = st.at(4).get<std::string>();
+			F2& f = reuse ? pf2["project:" + o] : fresh; f.o = o;
 			ev["j"] = j; ev["vars"] = st.at(3); ev["f"] = f.o;
 			h[i].reset(new MTBDD(h[j]->Project([&vars](size_t v) { return vars.count(v) > 0; }, f)));
 		}
